@@ -3,3 +3,4 @@ import Generated.CoreAssign
 import Generated.CoreHandleIf
 import Generated.CoreScanner
 import Generated.CoreConsiderLine
+import Generated.CoreModes
